@@ -156,8 +156,62 @@ func (st *State) guardAccess(fr *Frame, p *Ptr, write bool, pos token.Pos) {
 		}
 	}
 }
-func (st *State) guardAtomic(fr *Frame, p *Ptr, write bool, pos token.Pos)   {}
-func (st *State) guardMapAccess(fr *Frame, m Val, write bool, pos token.Pos) {}
+func (st *State) guardAtomic(fr *Frame, p *Ptr, write bool, pos token.Pos) {}
+
+// noteMapOwner remembers which mutex guards a map that was just read out of a guarded field.
+func (st *State) noteMapOwner(p *Ptr, v Val) {
+	if p.Kind != PObj || p.Path == "" || len(v.C) != 1 {
+		return
+	}
+	if _, ok := v.T.Underlying().(*types.Map); !ok {
+		return
+	}
+	e := st.e
+	tn := e.P.relType(p.RootT)
+	c := e.contracts["type "+tn]
+	if c == nil {
+		return
+	}
+	for _, g := range c.Guards {
+		if !g.CallOut && p.Path == "."+g.Field {
+			if st.private[p.Root] {
+				return
+			}
+			props := g.Props
+			if len(props) == 0 {
+				props = c.Props
+			}
+			st.mapOwner[v.C[0]] = mapOwner{lock: tn + "." + g.Lock + "@" + p.Root, what: tn + "." + g.Field, props: props}
+		}
+	}
+}
+
+type mapOwner struct {
+	lock  string
+	what  string
+	props []string
+}
+
+// guardMapAccess: the contents of a guarded map may only be read/ranged/updated under its mutex.
+func (st *State) guardMapAccess(fr *Frame, m Val, write bool, pos token.Pos) {
+	if len(m.C) != 1 {
+		return
+	}
+	o, ok := st.mapOwner[m.C[0]]
+	if !ok {
+		return
+	}
+	mode, held := st.locks[o.lock]
+	goal := "false"
+	if held && (!write || mode == "W") {
+		goal = "true"
+	}
+	rw := "read"
+	if write {
+		rw = "write"
+	}
+	st.oblige("lock", fmt.Sprintf("held:%s[]:%s", o.what, rw), o.props, goal, pos)
+}
 
 // checkCallOutAllowed: call-outs declared "calloutunder" must run while the receiver's mutex is held.
 func (st *State) checkCallOutAllowed(fr *Frame, kind string, pos token.Pos) {
